@@ -156,3 +156,40 @@ def kabsch_sander_arguments(miss1: int, miss3: int, pro: int) -> bool:
     _hb._geometry = rec
     _hb.kabsch_sander(t)
     return len(rec.calls) == 1 and _args_ok(rec.calls[0], t, want, pro, 0, False)
+
+
+def dssp_after_edit(edit: int, primed: bool, simplified: bool) -> bool:
+    """a HISTORY: (compute_dssp,) an in-place topology edit that keeps every count, compute_dssp again: the second call follows the topology
+    as it is now.
+    pre: 0 <= edit <= 3
+    post: __return__
+    """
+    edit = conc(edit, 0, 3)
+    t, want = _traj((True,) * 4, (True,) * 4, -1, 2)
+    rec = _Rec("HGIEBTS ")
+    _dssp._geometry = rec
+    if primed:
+        _dssp.compute_dssp(t, simplified=simplified)
+    top = t.topology
+    pro, brk = -1, 2
+    if edit == 0:                                   # residue 1 becomes a proline
+        top.residue(1).name = "PRO"
+        pro = 1
+    elif edit == 1:                                 # residue 0 loses its carbonyl oxygen by renaming (OXT-style terminal naming)
+        [a for a in top.residue(0).atoms if a.name == "O"][0].name = "OC1"
+        want[0] = {k: v for k, v in want[0].items() if k != "O"}
+    elif edit == 2:                                 # residue 3's CB becomes its (second listed) CA: no change expected in the indices of N, C, O
+        [a for a in top.residue(2).atoms if a.name == "CA"][0].name = "CX"
+        want[2] = {k: v for k, v in want[2].items() if k != "CA"}
+    del rec.calls[:]
+    out = _dssp.compute_dssp(t, simplified=simplified)
+    if len(rec.calls) != 1 or not _args_ok(rec.calls[0], t, want, pro, brk, True):
+        return False
+    for r in range(4):
+        complete = all(k in want[r] for k in BB)
+        for f in range(2):
+            code = "HGIEBTS "[4 * f + r]
+            expect = "NA" if not complete else (SIMPLE[code] if simplified else code)
+            if str(out[f, r]) != expect:
+                return False
+    return True
